@@ -73,6 +73,24 @@ def variant_source(kind, source):
         return ast.unparse(tree)
     if kind == "format":
         return ast.unparse(tree)
+    if kind == "logging":
+        # a debug line at the start of every function body and of every if / else / loop body
+        has_logger = any(isinstance(n, ast.Assign) and any(isinstance(t, ast.Name) and t.id == "logger" for t in n.targets) for n in tree.body)
+        if not has_logger:
+            return source
+
+        def dbg():
+            return ast.parse('logger.debug("trace")').body[0]
+
+        for n in ast.walk(tree):
+            if isinstance(n, ast.FunctionDef):
+                i = 1 if (n.body and isinstance(n.body[0], ast.Expr) and isinstance(n.body[0].value, ast.Constant)) else 0
+                n.body.insert(i, dbg())
+            elif isinstance(n, (ast.If, ast.For, ast.While)):
+                n.body.insert(0, dbg())
+                if n.orelse and not (len(n.orelse) == 1 and isinstance(n.orelse[0], ast.If)):
+                    n.orelse.insert(0, dbg())
+        return ast.unparse(ast.fix_missing_locations(tree))
     if kind == "numpy":
         has = any(isinstance(n, ast.Import) and any(a.name == "numpy" and a.asname == "np" for a in n.names) for n in ast.walk(tree))
         if not has:
@@ -109,7 +127,7 @@ def main():
     rc = 0
     for p in props:
         try:
-            prog = Program(repo, overrides=ov)
+            prog = core.make_program(p, repo, overrides=ov)
             ctx = core.analyse(p, repo, "quick", prog=prog)
         except AnalysisError as e:
             print(f"{p} [{kind}] ANALYSIS-ERROR: {str(e)[:200]}")
